@@ -22,9 +22,9 @@
 //!   T:<ns>                              advance virtual time
 //!   ~<step>                             the same step, but the runtime is not allowed to settle before the next step
 //! output line: <task log>|<completion log>|<live|done>
-//!   task log: lD lC lN@<ns> lF<ns> lW<ns> lS (listener)  d (connect attempt)  w<tx>:<id>@<ns> (request written)
+//!   task log: lD lC lN@<ns> lF<ns> lW<ns> lS (listener)  d (connect attempt)  w<tx>:<id>@<ns>#<k> (request written during script step k)
 //!             x<tx>:<id> (write failed)  e<reason>@<ns> (ClientLoop::run returned)
-//!   completion log: c<id>:<class>@<ns>
+//!   completion log: c<id>:<class>@<ns>#<k>
 #![allow(deprecated)]
 use std::collections::HashMap;
 use std::future::Future;
@@ -50,6 +50,8 @@ struct Shared {
     fail_write: bool,
     write_delay: Option<Duration>,
     writing: bool,
+    /// index of the script step being executed
+    step: usize,
     t0: Option<tokio::time::Instant>,
 }
 
@@ -77,7 +79,8 @@ fn class<T>(r: &Result<T, RequestError>) -> &'static str {
 fn complete(ctl: &Ctl, id: u32, class: &str) {
     let mut c = ctl.lock().unwrap();
     let t = now_ns(&c);
-    c.completions.push(format!("c{id}:{class}@{t}"));
+    let k = c.step;
+    c.completions.push(format!("c{id}:{class}@{t}#{k}"));
 }
 
 /// the transport of one connection: the shared scripted wire plus write faults / slow writes
@@ -131,7 +134,8 @@ impl AsyncWrite for ConnWire {
         }
         let mut c = me.ctl.lock().unwrap();
         let t = now_ns(&c);
-        c.task_log.push(format!("w{tx}:{id}@{t}"));
+        let k = c.step;
+        c.task_log.push(format!("w{tx}:{id}@{t}#{k}"));
         Poll::Ready(Ok(b.len()))
     }
     fn poll_flush(self: Pin<&mut Self>, _cx: &mut Context<'_>) -> Poll<std::io::Result<()>> {
@@ -281,7 +285,8 @@ async fn run_case(line: &str, initial: DecodeLevel) -> String {
     settle().await;
     let mut tail: Option<Vec<u8>> = None;
 
-    for step in script.split_whitespace() {
+    for (step_index, step) in script.split_whitespace().enumerate() {
+        ctl.lock().unwrap().step = step_index;
         // a leading '~' means: do not let the runtime settle after this step (the next step happens "at the same time")
         let (step, no_settle) = match step.strip_prefix('~') {
             Some(rest) => (rest, true),
